@@ -1,5 +1,6 @@
 pub mod c30;
+pub mod c39;
 
 pub fn all() -> Vec<&'static dyn simcore::Property> {
-    vec![&c30::C30]
+    vec![&c30::C30, &c39::C39]
 }
